@@ -311,3 +311,33 @@ def with_layout(a: np.ndarray, layout: str) -> np.ndarray:
         big[..., ::2] = a
         return big[..., ::2]
     raise ValueError(layout)
+
+
+@st.composite
+def fragment_pair(draw, ndims=(1, 2, 3)):
+    """Reference instances covered by 2-4 prediction fragments, with competing references
+    and stray fragments."""
+    shape = draw(shapes(ndims, max1=16, max2=8, max3=5))
+    ref = draw(st.one_of(box_map(shape, k=4), box_map(shape, k=2), free_map(shape, k=2, density=2)))
+    pred = ref.copy()
+    nd = ref.ndim
+    nxt = int(pred.max()) + 1
+    for _ in range(draw(st.integers(1, 4))):
+        labs = [int(x) for x in np.unique(pred) if x != 0]
+        if not labs:
+            break
+        lab = draw(st.sampled_from(labs))
+        ax = draw(st.integers(0, nd - 1))
+        idx = np.nonzero(pred == lab)
+        lo, hi = int(idx[ax].min()), int(idx[ax].max())
+        if hi > lo:
+            cut = draw(st.integers(lo + 1, hi))
+            sel = [slice(None)] * nd
+            sel[ax] = slice(cut, None)
+            sub = pred[tuple(sel)]
+            sub[sub == lab] = nxt
+            nxt += 1
+    pred = draw(derived_pred(pred, nops=draw(st.integers(0, 2))))
+    if draw(st.integers(0, 4)) == 0:
+        pred, ref = ref, pred
+    return pred, ref
